@@ -554,6 +554,12 @@ async def fs_suspend(d, variant=None):
         got = bool(d.out["susp"])
         await d.line(idle, rng.randint(5, 100))
         return got
+    if idle == FS_K and rng.random() < 0.5:
+        # low speed: first 3 ms of the *other* speed's J (= LS K): must not suspend (idle is speed specific)
+        d.mark("wrong_idle")
+        await d.line(FS_J, T_3MS + rng.randint(100, 800))
+        if d.out["susp"]:
+            return True
     if variant in ("near", "split"):
         await glitch(d, idle)                                            # known starting point for the idle timer
     if variant == "near":
@@ -677,11 +683,11 @@ async def hs_window(d, variant, restrict):
         await goto(rng.randint(10, W - 100)); d.set("line", FS_J)
     elif variant == "late_j":
         d.mark("late_j")
-        await goto(W - rng.randint(3, 12)); d.set("line", FS_J)
+        await goto(W - rng.randint(2, 12)); d.set("line", FS_J)
     elif variant == "j_then_se0":
         d.mark("late_nonj")
         await goto(rng.randint(10, 6000)); d.set("line", FS_J)
-        await goto(W - rng.randint(3, 12)); d.set("line", rng.choice([SE0, FS_K]))
+        await goto(W - rng.randint(2, 12)); d.set("line", rng.choice([SE0, FS_K]))
     elif variant == "blip":
         await goto(rng.randint(10, 6000)); d.set("line", FS_J)
         await goto(rng.randint(6100, W - 200)); d.set("line", SE0)
